@@ -62,6 +62,30 @@ def _ident_decorator(*a, **k):
     return lambda f: f
 
 
+def _jit_wrap(f):
+    """numba.jit stand-in: runs the Python source, but marks 'inside compiled code' so that scalar division follows Numba's default
+    error model (error_model='python': float or integer division by zero raises ZeroDivisionError; array expressions keep NumPy semantics)"""
+    import functools
+
+    @functools.wraps(f)
+    def w(*a, **k):
+        sc.JIT_DEPTH += 1
+        try:
+            return f(*a, **k)
+        finally:
+            sc.JIT_DEPTH -= 1
+    w.py_func = f
+    return w
+
+
+def _jit_decorator(*a, **k):
+    if len(a) == 1 and callable(a[0]) and not k:
+        return _jit_wrap(a[0])
+    if k.get('error_model') == 'numpy':
+        return lambda f: f
+    return _jit_wrap
+
+
 class _Any:
     def __getattr__(self, n):
         return _Any()
@@ -86,8 +110,8 @@ GENERATED = []
 def make_fakes():
     fakes = {}
     nb = types.ModuleType('numba')
-    nb.jit = _ident_decorator
-    nb.njit = _ident_decorator
+    nb.jit = _jit_decorator
+    nb.njit = _jit_decorator
     nb.vectorize = _ident_decorator
     nb.guvectorize = _ident_decorator
     nb.stencil = _ident_decorator
